@@ -16,6 +16,10 @@ claims={
    text="Deductive proof for all 2^32 x 2^32 offers: servernegotiate leaves msize = min(own, client's), answers Rversion(NOTAG) carrying exactly that msize in one frame that fits it, refuses (error, nothing written) when the first message is not a decodable Tversion or the reply does not fit; clientnegotiate proposes its own msize, never ends above it and adopts min(own, server's); SetMSize keeps len(rdbuf) = msize so that frames of exactly msize are accepted (C03) while none longer is emitted (C02).",
    note=TB+"Relies on the contracts of ReadFcall/WriteFcall (verified under C02/C03) and the Codec contract. ServeConn's 'nothing dispatched before negotiation succeeds' is not yet under contract.",
    technique="contract-based deductive verification (WP over go/ssa, SMT)"),
+ "C16":dict(level="other",design="§3-C16",
+   text="Deductive proof (unbounded, all name lists over abstract strings): ValidPath returns >= 0 exactly for lists whose elements are non-empty, not '.', separator-free and have '..' only as a leading run, and then returns the length of that run; NormalizePath returns -1 exactly when some element has a separator, otherwise a fresh list of the shape '..'^lo ++ plain names with lo returned, is the identity on lists already of that shape (so it is idempotent) and never modifies its argument; WalkName accepts exactly the valid lists whose '..' run does not exceed the directory depth (never climbs above root) and otherwise returns dir and an error; CreateName accepts exactly plain names; ToWalk yields only safe names, '..' only leading, none for absolute paths. All index/slice sites are obligations. Level 'other' because two clauses are not decided: that path.Join's result is the stepwise resolution in canonical form (library lemma, not proved) and NormalizePath's agreement with stepwise resolution of '..' (fold equivalence not yet under contract).",
+   note=TB+"strings.ContainsAny/Count, path.Join/IsAbs are uninterpreted deterministic functions; their values on string literals are computed by running the real functions; two library lemmas assumed (path.IsAbs(p) => len(p) >= 1, strings.Count >= 0).",
+   technique="contract-based deductive verification (WP over go/ssa, loop invariants, SMT)"),
 }
 reasons={}
 checks=[]
